@@ -77,13 +77,27 @@ KINDS_7 = ("LARGER, MIXED REFACTORING COMMITS (each 40-150 changed lines, combin
            "function into phases; adding optional keyword arguments with behaviour-preserving defaults; adding docstrings, "
            "annotations, __repr__, validation that never triggers, and unused additive helpers. REMOVING genuinely dead "
            "code (an unused import, an unused local, an unreachable branch) is allowed where you have verified it is dead")
+KINDS_8 = ("WHOLE-FUNCTION REWRITES in the style of an AI coding assistant asked to 're-implement this function cleanly from "
+           "its docstring' or 'modernise this code' - but CORRECT for every input: pick a small function, method or block "
+           "(5-40 lines) and rewrite it fluently with a different control structure or different (equivalent) library calls: "
+           "a loop as a comprehension / generator function / recursion / work-list (or the reverse), a chain of if/elif as "
+           "early returns or a match statement or a lookup table, a flag variable as for/else, index arithmetic re-derived, "
+           "several near-identical methods folded onto one private helper that takes the method name or a flag, one long "
+           "constructor split into private helper methods or functions, validation rewritten with different but equivalent "
+           "predicates (any(...) vs a loop with raise, set comparison vs all(...), `is None` tests reordered), the equivalent "
+           "jnp / lax / operator / itertools / functools spelling of the same operation WHEN it is bit-for-bit identical "
+           "(jnp.where vs lax.select on same dtypes is fine; do NOT swap numerically different formulas such as softplus vs "
+           "log1p(exp), expm1 vs exp - 1, logsumexp vs log(sum(exp))), records (NamedTuple / dataclass) for loop state, "
+           "enumerate(..., start=k), zip / starred unpacking (first, *rest), walrus assignments. Pay attention to the edge cases "
+           "the original handles (empty, scalar, dim 1, negative axis, None vs empty tuple, depth 0, integer inputs) and keep "
+           "each of them EXACTLY as it is - that is the point of this round")
 base = json.load(open("/root/.vp/BASELINE.json"))
 os.makedirs(root, exist_ok=True)
 open(f"{root}/baseline_stable_pass.txt", "w").write("\n".join(base["stable_pass"]) + "\n")
 open(f"{root}/baseline_always_fail.txt", "w").write("\n".join(base.get("always_fail", [])) + "\n")
 for a, area in areas.items():
     wt = f"{root}/wt_{a}"
-    kinds = KINDS_1 if rnd == 1 else KINDS_7 if rnd >= 7 else KINDS_6 if rnd == 6 else KINDS_5 if rnd == 5 else KINDS_4 if rnd == 4 else KINDS_2
+    kinds = KINDS_1 if rnd == 1 else KINDS_8 if rnd >= 8 else KINDS_7 if rnd == 7 else KINDS_6 if rnd == 6 else KINDS_5 if rnd == 5 else KINDS_4 if rnd == 4 else KINDS_2
     open(f"{root}/prompt_{a}.txt", "w").write(f"""You are helping test a code-analysis tool for false alarms. You work ONLY inside your own scratch git worktree: {wt} (a detached worktree of the Python library flowjax, a JAX/Equinox library of bijections, distributions, normalizing flows and training loops). Do NOT read or write anything under /verif, /root/.vp, /root/.claude, /repo, or any other directory under /tmp.
 
 TASK: produce SIX independent, strictly BEHAVIOUR-PRESERVING refactorings (call them R1..R6) of the library source in this area: {area}. Each must be the kind of commit a maintainer would plausibly make and a reviewer would accept as a pure refactor / clean-up, for example: {kinds}. Make them non-trivial (each should touch at least a few lines of real code, not only comments) and DIFFERENT in kind from each other; spread them over the files of the area. They must NOT change any observable behaviour for any input (values, shapes, errors raised and their types, randomness/key usage, gradients, pytree structure of the models, numerical stability: do not replace a numerically stable formula by a mathematically equivalent unstable one, and do not change the order of floating-point operations).
